@@ -50,6 +50,7 @@ def showQData : QData → String
 structure SimSt where
   sim : SimF := { clock := 0.0, net := { minDelay := 1.0, maxDelay := 1.0, dropRate := 0.0, duplRate := 0.0, corruptRate := 0.0 } }
   recs : List (Nat × Bool) := []
+  canons : List Nat := []
   rules : List (Nat × SRule) := []
   traceSeen : Nat := 0
   dead : Bool := false
@@ -59,7 +60,7 @@ structure SimSt where
 
 def simHandler (st : SimSt) : SHandler PState Float :=
   simScriptHandler (st.recs.map fun (p, rec) =>
-    (p, ({ rules := (st.rules.filter (·.1 == p)).map (·.2), record := rec } : Script)))
+    (p, ({ rules := (st.rules.filter (·.1 == p)).map (·.2), record := rec, canon := st.canons.contains p } : Script)))
 
 def sactSim! (s : String) : Option SAct :=
   match s.splitOn ":" with
@@ -98,10 +99,10 @@ def simOp (st : SimSt) (ws : List String) : SimSt × List String :=
     | .error _ => fail st
   match ws with
   | ["node", n] => okR (s.addNode (name! n)) "ok"
-  | ["proc", p, n] => okR (s.addProcess (name! p) {} (name! n)) "ok"
-      |> fun (st', o) => ({ st' with recs := st'.recs.filter (·.1 != name! p) ++ [(name! p, false)] }, o)
-  | ["proc", p, n, "rec"] => okR (s.addProcess (name! p) {} (name! n)) "ok"
-      |> fun (st', o) => ({ st' with recs := st'.recs.filter (·.1 != name! p) ++ [(name! p, true)] }, o)
+  | "proc" :: p :: n :: flags => okR (s.addProcess (name! p) {} (name! n)) "ok"
+      |> fun (st', o) => ({ st' with recs := st'.recs.filter (·.1 != name! p) ++ [(name! p, flags.contains "rec")],
+                                     canons := if flags.any (fun f => f == "py" || f == "pyd" || f == "canon")
+                                               then st'.canons ++ [name! p] else st'.canons }, o)
   | "rule" :: p :: s1 :: trig :: s2 :: acts =>
     ({ st with rules := st.rules ++ [(name! p, { st := nat! s1, trig := trig! trig, st2 := nat! s2,
                                                    acts := acts.filterMap sactSim! })] }, [])
@@ -171,7 +172,7 @@ def simOp (st : SimSt) (ws : List String) : SimSt × List String :=
     | .error _ => fail st
     | .ok sys =>
       let procs := s.nodes.flatMap fun nd => nd.2.procs.map fun pe => (pe.1, nd.1, (st.recs.find? (·.1 == pe.1)).map (·.2) |>.getD false)
-      let mst : McSt := { nodes := s.nodes.map (·.1), procs, rules := st.rules, sys := some sys, cbs := st.cbs,
+      let mst : McSt := { nodes := s.nodes.map (·.1), procs, canons := st.canons, rules := st.rules, sys := some sys, cbs := st.cbs,
                           refenum := st.refenum, runs := st.mcRuns }
       let (mst', lines) := doRun mst rest false
       ({ st with cbs := [], mcRuns := st.mcRuns + 1, dead := mst'.dead }, lines)
